@@ -26,7 +26,7 @@ MAXV = 40          # violations kept per run
 
 
 class Case:
-    __slots__ = ("kind", "line", "fs", "rg", "col", "ops", "mode", "bs", "proj", "pcols", "tag")
+    __slots__ = ("kind", "line", "mline", "fs", "rg", "col", "ops", "mode", "bs", "proj", "pcols", "tag")
 
     def __init__(self, **kw):
         for k in self.__slots__:
@@ -35,12 +35,14 @@ class Case:
 
 def col_case(fs, rg, col, mode, ops_txt, tag, verify=1):
     return Case(kind="col", fs=fs, rg=rg, col=col, mode=mode, ops=ops_txt, tag=tag,
-                line=f"col {mode} {verify} {fs.text()} {rg} {col} {ops_txt}")
+                line=f"col {mode} {verify} {fs.impl_text()} {rg} {col} {ops_txt}",
+                mline=f"col {mode} {verify} {fs.text()} {rg} {col} {ops_txt}")
 
 
 def bat_case(fs, mode, bs, proj, pcols, tag, verify=1):
     return Case(kind="bat", fs=fs, mode=mode, bs=bs, proj=proj, pcols=pcols, tag=tag,
-                line=f"bat {mode} {verify} {fs.text()} {bs} {proj}")
+                line=f"bat {mode} {verify} {fs.impl_text()} {bs} {proj}",
+                mline=f"bat {mode} {verify} {fs.text()} {bs} {proj}")
 
 
 def one_col_file(typ, nullable, mask, sizes, codec=0):
@@ -237,6 +239,74 @@ def gen_bat_cases(tier, rng):
     return cases
 
 
+def gen_pq_cases(tier, rng):
+    """files from the independent writer tools/pq.py: dictionary-encoded chunks (the carquet writer only emits PLAIN),
+    page CRCs, and chunks with a data page of zero values at the start, in the middle, at the end"""
+    cases = []
+    thorough = tier == "thorough"
+    modes = "fmb"
+    mi = 0
+    layouts = []
+    for typ in ("i32", "i64", "f64", "ba", "fl3", "f32"):
+        for nullable in (False, True):
+            n = rng.randrange(3, 7)
+            sizes = rng.choice(rc.compositions(n, 3))
+            mask = rc.safe_nullmask(n, rng, "rand") if nullable else [False] * n
+            layouts.append((typ, nullable, mask, sizes))
+    encs = ["RLE_DICTIONARY", "PLAIN_DICTIONARY", "PLAIN"]
+    codecs = [0, 1, 2, 6, 7]
+    for li, (typ, nullable, mask, sizes) in enumerate(layouts):
+        for enc in (encs if thorough else [encs[li % 3], encs[(li + 1) % 3]]):
+            codec = codecs[(li + len(enc)) % len(codecs)]
+            fs = FileSpec(codec, [Col("a", typ, nullable)], [[rc.make_chunk(typ, mask, sizes)]], dict_encoded=(enc != "PLAIN"))
+            try:
+                fs.use_bytes(rc.pq_bytes(fs, encoding=enc, crc=True, rng=rng))
+            except Exception as e:          # a codec the host lacks: skip this cell, never silently the whole family
+                log(f"C02: pq.py cannot write {enc}/{codec}: {e}")
+                continue
+            n = sum(sizes)
+            cases.append(col_case(fs, 0, 0, "f", f"r{n + 1}", "ref"))
+            hs = rc.histories(n, n + 1)
+            for h in rng.sample(hs, min(len(hs), 150 if thorough else 60)):
+                cases.append(col_case(fs, 0, 0, modes[mi % 3], rc.ops_text(h), "dict", verify=mi % 2))
+                mi += 1
+    # multi-column dictionary file through the batch reader
+    cols = [Col("k", "i64", False), Col("v", "i32", True), Col("s", "ba", True)]
+    nrow = 6
+    rg = [rc.make_chunk("i64", [False] * nrow, [2, 4]), rc.make_chunk("i32", rc.safe_nullmask(nrow, rng, "rand"), [3, 3]),
+          rc.make_chunk("ba", rc.safe_nullmask(nrow, rng, "alt"), [1, 2, 3])]
+    for enc, codec in (("RLE_DICTIONARY", 0), ("RLE_DICTIONARY", 1), ("PLAIN", 0)):
+        fs = FileSpec(codec, cols, [rg], dict_encoded=(enc != "PLAIN"))
+        try:
+            fs.use_bytes(rc.pq_bytes(fs, encoding=enc, crc=True, rng=rng))
+        except Exception as e:
+            log(f"C02: pq.py cannot write {enc}/{codec}: {e}")
+            continue
+        for c in range(3):
+            cases.append(col_case(fs, 0, c, "f", f"r{nrow + 1}", "ref"))
+        for bs in range(1, nrow + 2):
+            for proj, pcols in (("all", [0, 1, 2]), ("i:2,0", [2, 0]), ("n:v", [1]), ("n:s,k,v", [2, 0, 1])):
+                for mode in "fmb":
+                    cases.append(bat_case(fs, mode, bs, proj, pcols, "dictbat"))
+    # a data page with num_values = 0 (legal in the format, never written by carquet itself) anywhere in the chunk
+    for typ, nullable, where in (("i32", False, 1), ("i32", True, 1), ("ba", False, 1), ("i64", True, 0), ("i32", False, 2),
+                                 ("f64", True, 2)):
+        n, sizes = 4, [2, 2]
+        mask = [False, True, False, False] if nullable else [False] * n
+        pages = rc.make_chunk(typ, mask, sizes)
+        pages.insert(where, [])                      # the empty page is part of the description the model gets
+        fs = FileSpec(0, [Col("a", typ, nullable)], [[pages]])
+        fs.use_bytes(rc.pq_bytes(fs, encoding="PLAIN", crc=True, rng=rng))
+        cases.append(col_case(fs, 0, 0, "f", f"r{n + 1}", "ref"))
+        for h in rc.histories(n, n + 1):
+            cases.append(col_case(fs, 0, 0, modes[mi % 3], rc.ops_text(h), "empty"))
+            mi += 1
+        for bs in (1, 2, 3, 5):
+            for mode in "fmb":
+                cases.append(bat_case(fs, mode, bs, "all", [0], "empty"))
+    return cases
+
+
 # ------------------------------------------------------------------ evaluation on the implementation
 
 def collect_refs(cases, impl):
@@ -255,12 +325,15 @@ def collect_refs(cases, impl):
 
 class Tally:
     def __init__(self, rep):
-        self.rep, self.n = rep, 0
+        self.rep, self.n, self.cur_key = rep, 0, None
 
     def violation(self, what, replay, key=None):
+        key = key or self.cur_key        # cur_key: the open finding the current case's file is a witness of (or None)
+        if self.rep.violation(what, replay, key=key) is False:
+            return                       # matches an open finding: reported as KNOWN-FINDING, not counted
         self.n += 1
-        if self.n <= MAXV:
-            self.rep.violation(what, replay, key=key)
+        if self.n > MAXV and self.rep.violations:
+            self.rep.violations.pop()    # keep the first MAXV, count all
 
 
 def check_col(c, out, refs, tally):
@@ -270,7 +343,7 @@ def check_col(c, out, refs, tally):
     if out.startswith("FAULT skipped"):
         return
     if out.startswith("FAULT"):
-        tally.violation("the reader died on this history (sanitizer report or signal)", {"case": c.line})
+        tally.violation("the reader died on this history (sanitizer report or signal)", {"case": c.line}, key=c.fs.known)
         return
     if ref is None:
         if c.tag == "ref":
@@ -278,7 +351,7 @@ def check_col(c, out, refs, tally):
         return
     t = out.split()
     if not t or t[0] != "OK":
-        tally.violation(f"history refused: {out[:200]}", {"case": c.line})
+        tally.violation(f"history refused: {out[:200]}", {"case": c.line}, key=c.fs.known)
         return
     want = rc.reference_cursor(ref, c.fs.cols[c.col].nullable, rc.parse_ops(c.ops))
     if t[1:] != want:
@@ -287,7 +360,7 @@ def check_col(c, out, refs, tally):
             f"column reader: history delivers something else than the one-shot read of the same chunk at step {i} "
             f"(op {c.ops.split(',')[i] if i < len(c.ops.split(',')) else '?'}): got {t[1 + i] if 1 + i < len(t) else None}, "
             f"the chunk content and cursor arithmetic give {want[i] if i < len(want) else None}",
-            {"case": c.line, "got": t[1:], "want": want, "chunk_content_by_one_shot_read": ref})
+            {"case": c.line, "got": t[1:], "want": want, "chunk_content_by_one_shot_read": ref}, key=c.fs.known)
 
 
 def check_bat(c, out, refs, tally):
@@ -371,18 +444,33 @@ def run(tier):
     except vlib.BuildError as e:
         rep.tie_broken("harness does not build against the current tree: " + str(e)[:500])
         return rep.finish()
-    cases = gen_col_cases(tier, rng) + gen_bat_cases(tier, rng)
+    cases = gen_col_cases(tier, rng) + gen_bat_cases(tier, rng) + gen_pq_cases(tier, rng)
     lines = [c.line for c in cases]
     log(f"C02: {len(lines)} cases")
-    impl, probs = run_sharded(drv, lines, env=ENV, timeout=3000)
+    impl, deaths = rc.run_resilient(drv, lines, env=ENV)
     tally = Tally(rep)
-    for pr in probs:
-        tally.violation(f"driver died (rc={pr[1]}): {pr[2][-700:]}", {"case": pr[3]})
+    evaluate(rep, tally, cases, impl, deaths)
+    rep.cov["violations_total"] = tally.n
+    for c in (cases[5], cases[len(cases) // 3], cases[-1]):
+        rep.sample({"case": c.line[:400]})
+    model_tie(rep, cases, impl)
+    return rep.finish()
+
+
+def evaluate(rep, tally, cases, impl, deaths):
+    for d in deaths:
+        if d[0] is None:
+            tally.violation(f"driver reported a problem at exit (rc={d[1]}): {d[2][-700:]}", {"case": None})
+    died = {d[0]: d for d in deaths if d[0] is not None}
     refs = collect_refs(cases, impl)
     dist = {}
     for c, out in zip(cases, impl):
-        rep.count(c.line, nontrivial=c.tag != "ref")
+        rep.count(c.line, nontrivial=not c.tag.startswith("ref"))
         dist[c.tag] = dist.get(c.tag, 0) + 1
+        tally.cur_key = c.fs.known
+        if out == "FAULT died" and c.line in died:
+            tally.violation(f"the reader died on this case (rc={died[c.line][1]}): {died[c.line][2][-900:]}", {"case": c.line})
+            continue
         if c.kind == "col":
             check_col(c, out, refs, tally)
             if c.tag == "ref":
@@ -394,15 +482,13 @@ def run(tier):
                                    f"{refs[(c.fs.text(), c.rg, c.col)]} vs {written}", c.line)
         else:
             check_bat(c, out, refs, tally)
+    tally.cur_key = None
     rep.cov["input_distribution"] = dist
-    rep.cov["violations_total"] = tally.n
-    for c in (cases[5], cases[len(cases) // 3], cases[-1]):
-        rep.sample({"case": c.line[:400]})
-    model_tie(rep, cases, lines, impl)
-    return rep.finish()
 
 
-def model_tie(rep, cases, lines, impl):
+def model_tie(rep, cases, impl):
+    """the extracted CursorModel / BatchModel replay the same cases (files written by tools/pq.py are described to the
+    model by their logical pages) and must print the same canonical line"""
     if not (vlib.VERIF / "ocaml" / "run_reader.ml").exists():
         rep.tie_broken("the model runner ocaml/run_reader.ml does not exist")
         return
@@ -411,16 +497,20 @@ def model_tie(rep, cases, lines, impl):
     except vlib.BuildError as e:
         rep.tie_broken("model runner does not build: " + str(e)[:600])
         return
-    model, probs = run_sharded(runner, lines, timeout=3000)
+    sel = [c for c in cases if c.fs.known is None]           # witnesses of open findings: the model is the repaired code
+    isel = [i for i, c in enumerate(cases) if c.fs.known is None]
+    model, probs = run_sharded(runner, [c.mline for c in sel], timeout=3000)
     for pr in probs:
         rep.tie_broken(f"model runner died (rc={pr[1]}): {pr[2][-300:]}", pr[3])
     bad = 0
-    for c, a, b in zip(cases, impl, model):
-        if a != b:
+    for c, i, b in zip(sel, isel, model):
+        a = impl[i]
+        if a != b and not a.startswith("FAULT"):
             bad += 1
             if bad <= 5:
                 rep.tie_broken(f"extracted model and implementation print different lines: model {b[:300]} / impl {a[:300]}", c.line)
     rep.cov["model_tie_mismatches"] = bad
+    rep.cov["model_tie_cases"] = len(sel)
 
 
 def replay(path):
